@@ -565,3 +565,68 @@ func RewrapGtab(t *tape.Tape, data []byte, gpos, share bool) ([]byte, string) {
 	}
 	return out, fmt.Sprintf("lookups %v rewritten as extension lookups%s", w, note)
 }
+
+// CmapOverlap assembles a cmap table by hand with n+1 encoding records.  The
+// first record points at a small subtable at the very end of the table; the
+// others (Macintosh platform, languages 1..n, so that all keys differ) point
+// into the space in front of it.  With share set they all point at one and
+// the same format 6 subtable - legal sharing, as font tools do it.  Without,
+// record k points 10 bytes behind record k-1 at a format 6 header of its own
+// whose length reaches to the end of the space: n distinct, mutually
+// overlapping subtables whose total size is quadratic in the size of the
+// table.  The container format says subtables are disjoint or identical; a
+// decoder that accepts the second shape hands out (and re-encodes) far more
+// than it was given.
+func CmapOverlap(n int, share bool) []byte {
+	be := func(b []byte, v int) []byte { return append(b, byte(v>>8), byte(v)) }
+	be32 := func(b []byte, v int) []byte { return append(b, byte(v>>24), byte(v>>16), byte(v>>8), byte(v)) }
+	space := 10*n + 25000
+	if space > 65000 {
+		space = 65000
+	}
+	space &^= 1
+	hdr := 4 + 8*(n+1)
+	var b []byte
+	b = be(b, 0)
+	b = be(b, n+1)
+	// record 0: Unicode platform, at the end
+	b = be(b, 0)
+	b = be(b, 3)
+	b = be32(b, hdr+space)
+	for k := 0; k < n; k++ {
+		b = be(b, 1) // Macintosh
+		b = be(b, 0) // Roman
+		if share {
+			b = be32(b, hdr)
+		} else {
+			b = be32(b, hdr+10*k)
+		}
+	}
+	region := make([]byte, 0, space)
+	for k := 0; k < n && 10*k+10 <= space; k++ {
+		l := space - 10*k
+		if share && k > 0 {
+			break
+		}
+		region = be(region, 6)
+		region = be(region, l)
+		lang := k + 1
+		if share {
+			lang = 0
+		}
+		region = be(region, lang)
+		region = be(region, 0x20)       // first code
+		region = be(region, (l-10)/2) // entry count
+	}
+	for len(region) < space {
+		region = append(region, 0, byte(len(region)%7))
+	}
+	b = append(b, region[:space]...)
+	// the subtable record 0 points at: format 6, no entries
+	b = be(b, 6)
+	b = be(b, 10)
+	b = be(b, 0)
+	b = be(b, 0x20)
+	b = be(b, 0)
+	return b
+}
